@@ -82,6 +82,9 @@ pub fn restore<P1: AsRef<Path>, P2: AsRef<Path>>(
 
     let mut dst_locked = lock_all(&mut dst_db_file, dst.as_ref(), timeout)?;
 
+    #[cfg(feature = "verif")]
+    crate::verif::gate_blocking("restore-locked");
+
     let dst_journal_path = format!("{}-journal", dst.as_ref().display());
     info!("removing the journal file at: '{dst_journal_path}'");
     if let Err(e) = std::fs::remove_file(PathBuf::from(dst_journal_path))
@@ -110,9 +113,15 @@ pub fn restore<P1: AsRef<Path>, P2: AsRef<Path>>(
 
     copy_check(&mut src_db_file, &mut dst_db_file, src_meta.len())?;
 
+    #[cfg(feature = "verif")]
+    crate::verif::gate_blocking("restore-copied");
+
     if let Locked::Wal(ref mut dst_shm_file) = dst_locked {
         dst_shm_file.write_at(&[0; 136], 0)?;
     }
+
+    #[cfg(feature = "verif")]
+    crate::verif::gate_blocking("restore-done");
 
     info!("done");
 
